@@ -97,7 +97,7 @@ def chop_vertices(chk, mod):
         tag = 'keep t>=open' if c2o else 'keep t<=close'
         paths = chk.explore(lambda: fn(FrameMock(), Var(Buf(tcut, NAMED['s'], F64, origin='argument', tag='time')), c2o), base=base, catch=(Exception,))
         its = [p for p in paths if p.kind == 'raise' and isinstance(p.value, loops.PathEnd)]
-        chk.decided(f'{pre}/four-cases-per-vertex[{tag}]', len(its) == 4, detail=str([(p.kind, type(p.value).__name__) for p in paths]))
+        kinds = set()      # which of the four Sutherland-Hodgman cases the paths of one iteration cover (any number of paths per case)
         for p in paths:
             if p.kind == 'raise' and not isinstance(p.value, loops.PathEnd):
                 chk.decided(f'{pre}/no-raise[{tag}]', False, detail=f'{type(p.value).__name__}: {p.value}')
@@ -116,19 +116,25 @@ def chop_vertices(chk, mod):
             n_items = len(out)
             # which case is this path?  decided by the appended items; each must match the definition
             if n_items == 0:
+                kinds.add('nothing')
                 chk.prove(f'{pre}/nothing-appended-only-if-outside-and-next-outside[{tag}/case{k}]', hy, z3.And(z3.Not(inside_i), z3.Not(inside_j)))
                 continue
             items = []
             for (tv, wv) in out:
                 items.append((tv.val, wv.val))
             crossing = None
+            if n_items > 2:
+                chk.decided(f'{pre}/at-most-two-items-per-vertex[{tag}/case{k}]', False, detail=f'{n_items} items appended for one vertex')
+                continue
             if n_items == 2:
+                kinds.add('vertex+crossing')
                 chk.prove(f'{pre}/vertex-and-crossing-appended-only-if-inside-and-next-outside[{tag}/case{k}]', hy, z3.And(inside_i, z3.Not(inside_j)))
                 chk.prove(f'{pre}/inside-vertex-kept-unchanged[{tag}/case{k}]', hy, z3.And(items[0][0] == T_(iv), items[0][1] == W_(iv)))
                 crossing = items[1]
             else:
                 # one item: either the vertex itself (inside, next inside) or the crossing (outside, next inside)
                 is_vertex = chk.solve_now(_ob(f'{pre}/probe', hy, z3.And(items[0][0] == T_(iv), items[0][1] == W_(iv), inside_i)), register=False) == 'discharged'
+                kinds.add('vertex' if is_vertex else 'crossing')
                 if is_vertex:
                     chk.prove(f'{pre}/only-the-vertex-appended-only-if-inside-and-next-inside[{tag}/case{k}]', hy, z3.And(inside_i, inside_j))
                     chk.prove(f'{pre}/inside-vertex-kept-unchanged[{tag}/case{k}]', hy, z3.And(items[0][0] == T_(iv), items[0][1] == W_(iv)))
@@ -168,6 +174,7 @@ def chop_vertices(chk, mod):
                                   z3.fpEQ(fpe, wv), timeout=120, meta={'inputs': {}, 'fp_tie': True})
                 except ValueError as e:
                     chk.decided(f'{pre}/[F] tie obligation could be generated[{tag}/case{k}]', False, detail=str(e))
+        chk.decided(f'{pre}/four-cases-per-vertex[{tag}]', kinds == {'nothing', 'vertex+crossing', 'vertex', 'crossing'}, detail=f'{sorted(kinds)} over {len(its)} paths')
 
 
 def _ob(name, hy, goal):
